@@ -1192,13 +1192,20 @@ udp_timer_cb(void *arg)
 		if (p->dialer && now > p->next_creq) {
 			udp_send_creq(ep, p);
 		}
-		if (p->next_wake < ep->next_wake) {
-			ep->next_wake = p->next_wake;
+		// A wake-up time that has passed (nobody advances it for a
+		// pipe that has nothing to send) must not be used again: the
+		// next thing to do for this pipe is its expiry.
+		nni_time wake = p->next_wake > now ? p->next_wake : p->expire;
+		if (wake < ep->next_wake) {
+			ep->next_wake = wake;
 		}
 	}
 	refresh = ep->next_wake == NNI_TIME_NEVER
 	    ? NNG_DURATION_INFINITE
 	    : (nng_duration) (ep->next_wake - now);
+	if ((refresh != NNG_DURATION_INFINITE) && (refresh < 1)) {
+		refresh = 1; // never re-arm with "now": that would spin
+	}
 	nni_sleep_aio(refresh, &ep->timeaio);
 
 	nni_mtx_unlock(&ep->mtx);
